@@ -757,6 +757,15 @@ func consumers() []consumer {
 	return out
 }
 
+// scribble overwrites a buffer that was handed to a decoder (including spare capacity): the decoded
+// object must not depend on the caller's buffer afterwards.
+func scribble(b []byte) {
+	b = b[:cap(b)]
+	for i := range b {
+		b[i] ^= 0xa5 + byte(i)
+	}
+}
+
 func consequenceCase(t *rapid.T, cs consumer) {
 	sub := "consequence/" + cs.name
 	s, c := cs.s, cs.c
@@ -799,6 +808,26 @@ func consequenceCase(t *rapid.T, cs consumer) {
 		}
 	}
 	want := low && cs.errors
+	// the private key goes through the decoder; the import buffer is overwritten before the key is used
+	skOrig, _ := sk.MarshalBinary()
+	pkOrig, _ := pk.MarshalBinary()
+	if rapid.Bool().Draw(t, "importSk") {
+		buf := append(make([]byte, 0, len(skOrig)+8), skOrig...)
+		sk2, err := s.UnmarshalBinaryPrivateKey(buf)
+		if err != nil {
+			t.Fatalf("UnmarshalBinaryPrivateKey of an own key failed: %v", err)
+		}
+		scribble(buf)
+		b2, _ := sk2.MarshalBinary()
+		p2, _ := sk2.Public().MarshalBinary()
+		if !bytes.Equal(b2, skOrig) || !bytes.Equal(p2, pkOrig) {
+			if vlib.Report(t, "C06/consequence/"+cs.name+"/imported-private-key-depends-on-caller-buffer", fmt.Sprintf("sk=%x: after overwriting the import buffer MarshalBinary=%x Public=%x (want %x)", skOrig, b2, p2, pkOrig)) {
+				return
+			}
+		}
+		sk = sk2
+		vlib.Class(sub, "private-key-imported-buffer-overwritten")
+	}
 	vlib.Class(sub, "u="+uk)
 	if low {
 		vlib.Class(sub, "flag=false")
@@ -820,20 +849,23 @@ func consequenceCase(t *rapid.T, cs consumer) {
 	case "encapsulate":
 		pkb, _ := pk.MarshalBinary()
 		copy(pkb[cs.pkOff:], u)
+		encPk = append([]byte{}, pkb...)
 		pk2, err := s.UnmarshalBinaryPublicKey(pkb)
+		scribble(pkb)
 		if err != nil {
 			// refusing the key at parse time is also "an error"
 			gotErr = err
 			break
 		}
-		encPk = pkb
 		if p, st := vlib.Catch(func() { gotCT, gotSS, gotErr = s.EncapsulateDeterministically(pk2, eseed) }); p != nil {
 			vlib.Report(t, "C06/consequence/"+cs.name+"/panic", fmt.Sprintf("u=%x %v\n%s", u, p, st))
 			return
 		}
 	case "auth":
 		as := s.(kem.AuthScheme)
-		pkS, err := s.UnmarshalBinaryPublicKey(u)
+		ubuf := append([]byte{}, u...)
+		pkS, err := s.UnmarshalBinaryPublicKey(ubuf)
+		scribble(ubuf)
 		if err != nil {
 			gotErr = err
 			break
@@ -856,7 +888,7 @@ func consequenceCase(t *rapid.T, cs consumer) {
 	// X-Wing: no error is not enough — the secret must be the combiner of the specification with
 	// the X25519 value as it is (all-zero for a low-order share), for every u
 	if cs.xwing && gotErr == nil {
-		skb, _ := sk.MarshalBinary()
+		skb := skOrig
 		switch what {
 		case "decapsulate":
 			if want := xwingDecaps(skb, ct2); !bytes.Equal(gotSS, want) {
